@@ -98,6 +98,24 @@ def run():
         if i in acc:
             raise MachineryError("DistinctTrace explains a corrupted recording (%s)" % name)
         log.append("DistinctTrace/%s -> not a behaviour" % name)
+    # Matcher (L2 model of WeightedBipartiteMatcher): a real recording; a wrong answer / edge position / pairing must not be explained
+    from props import _matcher
+    mch = [[[0, 2], [0, 1], [0, 0]], [[0, 2], [1, 2], [1, 1]], [[1, 2], [2, 2]], [[0, 2], [1, 1]]]
+    mrec, why = _matcher.record(2, 2, mch, ["bounds", "tighten", "matching", "tighten", "bounds"])
+    if mrec is None:
+        raise MachineryError("the scripted matcher run failed: %s" % why)
+    mb1 = copy.deepcopy(mrec); mb1["ev"][0]["ret"][1] += 1
+    mb2 = copy.deepcopy(mrec); mb2["ev"][1]["ptr"][0] += 1
+    mb3 = copy.deepcopy(mrec); mb3["ev"][-1]["match"] = [[1, 1], [2, 1]]
+    mb4 = copy.deepcopy(mrec); mb4["ev"][1]["ret"] = [1 - mb4["ev"][1]["ret"][0]]
+    mbads = [("wrong-bounds", mb1), ("wrong-edge-position", mb2), ("not-an-assignment", mb3), ("wrong-answer", mb4)]
+    acc, _ = _matcher.validate([mrec] + [b for _, b in mbads], "selftest-MatcherTrace")
+    if 0 not in acc:
+        raise MachineryError("MatcherTrace does not explain an unmodified recording: %s" % json.dumps(mrec))
+    for i, (name, _) in enumerate(mbads, 1):
+        if i in acc:
+            raise MachineryError("MatcherTrace explains a corrupted recording (%s)" % name)
+        log.append("MatcherTrace/%s -> not a behaviour" % name)
     # Dispatch (L2 model of get_formatter): a real recording; a wrong answer must be rejected
     from props import _dispatch
     u = {"has": [["VA"], ["object"], []], "subtypes": [[], [1], [2, 1]], "reg": [2], "mro": ["VB", "VA", "object"],
